@@ -72,8 +72,16 @@ RandCase ==
       ch == IF RE(1..3) = 1 THEN RE(1..3) ELSE 0
       kv == RE({x \in 1..MaxMsgs : x <= n + 2})
       kc == RE({x \in 0..MaxMsgs : x <= n + 2})
+      (* one case in three: EVERY authority prevotes (and most precommit) a     *)
+      (* well-formed vote somewhere above the head -- supermajorities that only *)
+      (* exist on blocks nobody voted for directly arise this way               *)
+      full == RE(1..3) = 1
+      fullMs == {[id |-> i, stage |-> "prevote", b |-> RE(above), sig |-> "ok", num |-> "ok"] : i \in 1..n}
+                \cup {[id |-> i, stage |-> "precommit", b |-> RE(above), sig |-> "ok", num |-> "ok"] :
+                        i \in {j \in 1..n : RE(1..4) # 1}}
   IN [n |-> n, t |-> t, head |-> h, change |-> ch,
-      ms |-> RandMsgs(n, t, kv, above, clean, "prevote") \cup RandMsgs(n, t, kc, above, clean, "precommit")]
+      ms |-> IF full THEN fullMs
+             ELSE RandMsgs(n, t, kv, above, clean, "prevote") \cup RandMsgs(n, t, kc, above, clean, "precommit")]
 
 Gen == /\ ~done /\ Len(hist) < CasesPerBehaviour
        /\ hist' = Append(hist, RandCase) /\ UNCHANGED <<cs, done>>
